@@ -89,8 +89,12 @@ def build_topology(case):
             graph.add_edge(u, v)
         meta = MetaMolecule(graph, force_field=ff, mol_name=spec["name"])
         supplied = {n: p for n, p in spec["supplied"]}
+        centre_only = set(spec.get("centre_only", []))
         for node in spec["nodes"]:
             meta.nodes[node]["build"] = node in spec["build"]
+            # flags as add_positions_from_file sets them: atoms given (-c) -> backmap False,
+            # centre only (-mc) -> backmap True, to be built -> backmap True
+            meta.nodes[node]["backmap"] = (node in spec["build"]) or (node in centre_only) or (node not in supplied)
             if node in supplied:
                 meta.nodes[node]["position"] = lattice(supplied[node])
         meta.dfs = bool(spec["dfs"])
@@ -182,7 +186,7 @@ def run_real(case):
     random_walk.RandomWalk.update_positions = scripted_update
     random_walk.RandomWalk._is_overlap = scripted_overlap
     random_walk.RandomWalk.run_molecule = counted_run
-    result = dict(finished=False, stuck=False, error=None)
+    result = dict(finished=False, stuck=False, error=None, miscounted=[])
     try:
         try:
             builder.run_system(top.molecules)
@@ -199,6 +203,14 @@ def run_real(case):
     engine = builder.nonbond_matrix
     if result["finished"] or result["stuck"]:
         rec.trace.append(dict(trial=None, eng=snapshot(engine, top, case["ignore"])))
+    # "exactly one position": every positioned residue is listed once in the engine's index lists
+    listed = {}
+    if engine is not None:
+        for idxs in engine.defined_idxs:
+            for gndx in idxs:
+                listed[int(gndx)] = listed.get(int(gndx), 0) + 1
+        result["miscounted"] = sorted(g for g in set(listed) | set(int(k) for k in engine.gndx_to_tree)
+                                      if listed.get(g, 0) != (1 if g in engine.gndx_to_tree else 0))
     # write-back of update_positions_in_molecules (only reached on success)
     writeback = None
     if result["finished"]:
@@ -287,6 +299,9 @@ def judge(ctx, case, real, run_ans, spec_ans):
         state = impl_trace[idx] if idx < len(impl_trace) else None
         ctx.oracle_fail(name, "%s at trial %d of schedule %s (nrewind=%s): state %s"
                         % (name, idx, _bits(case["sched"][:real["used"]]), case["nrewind"], json.dumps(state)[:300]), replay)
+    if real["miscounted"] and not real["error"]:
+        ctx.oracle_fail("residue-not-listed-exactly-once", "engine index lists hold the global indices %s not exactly "
+                        "once after schedule %s" % (real["miscounted"][:10], _bits(case["sched"][:real["used"]])), replay)
     for t in impl_trace:
         for _, items in t["eng"]:
             for node, pid in items:
@@ -366,8 +381,10 @@ def gen_mol(rng, name, shape, n, supplied_mode, sid):
     start = None
     if rng.random() < 0.35:
         start = rng.choice(nodes)
+    roll = rng.random()
+    centre_only = list(sup_nodes) if roll < 0.3 else [] if roll < 0.6 else [x for x in sup_nodes if rng.random() < 0.5]
     return dict(name=name, shape=shape, nodes=nodes, edges=edges, start=start, dfs=rng.random() < 0.3,
-                build=build, supplied=supplied)
+                build=build, supplied=supplied, centre_only=centre_only)
 
 
 def gen_system(rng, max_mols, max_n, small=False):
